@@ -396,3 +396,9 @@ M('seed-C03-got_all-truthiness', ['C01', 'C03'], Z, "return (recvd := self.recvd
 M('seed-C06-reset-before-reregister', ['C06'], Z, "                                    if s.got_all:\n                                        poller.register(s.sub, zmq.POLLIN)  # regerister because was unregistered if got_all, sender itself is known to be registered since we just got a message from it\n\n                                    s.new_recv()", "                                    s.new_recv()\n\n                                    if s.got_all:\n                                        poller.register(s.sub, zmq.POLLIN)", ['C06.R2'])
 M('seed-C16-unanchored-regex', ['C16'], BR, "        for pattern in self._allow:\n            if fnmatch.fnmatch(metric_name, pattern):\n                return True", "        import re\n        rx = re.compile('|'.join('(?:' + re.escape(p).replace('\\\\*', '.*') + ')' for p in self._allow))\n        if rx.match(metric_name):\n            return True", ['C16.R2'])
 M('seed-C17-skip-guard-transposed', ['C17'], UT, "        if w != frame.width or h != frame.height:", "        if (w, h) != frame.shape[:2]:", ['C17.R1'])
+M('seed-C04-request-eph-mark-leaks', ['C04', 'C05'], Z, "                if sender.ephemeral:\n                    msg_req['eph'] = sender.ephemeral\n                elif 'eph' in msg_req:\n                    del msg_req['eph']\n", "                if sender.ephemeral:\n                    msg_req['eph'] = sender.ephemeral\n", ['C04.R7', 'C05.R6'])
+M('request-new-mark-leaks', ['C05'], Z, "                if not sender.conn:\n                    msg_req['new'] = True\n                elif 'new' in msg_req:\n                    del msg_req['new']\n", "                if not sender.conn:\n                    msg_req['new'] = True\n", ['C05.R6'])
+M('seed-C01-reset-only-complete-sources', ['C01'], Z, "                                if s is not sender and not s.ephemeral:\n                                    if s.got_all:\n                                        poller.register(s.sub, zmq.POLLIN)  # regerister because was unregistered if got_all, sender itself is known to be registered since we just got a message from it\n\n                                    s.new_recv()", "                                if s is not sender and not s.ephemeral and s.got_all:\n                                    s.new_recv(poller=poller)", ['C01.R2'])
+M('seed-C02-reset-guard-balanced', ['C01', 'C07'], Z, "                        elif res and not balance:\n                            for s in sendervs:", "                        elif res and not balanced:\n                            for s in sendervs:", ['C01.R2', 'C07.R2'])
+M('seed-C07-prev_id-only-without-state', ['C02', 'C07'], Z, "                self.prev_id = min_recv_id\n                data         = {}", "                if state is None:\n                    self.prev_id = min_recv_id\n                data         = {}", ['C02.R2', 'C07.R4'])
+M('seed-C05-balanced-readiness-precedence', ['C04', 'C05'], Z, "                        out_do_send and (requested or ephemeral),", "                        out_do_send and requested or ephemeral,", ['C04.R2', 'C05.R1'])
